@@ -4,6 +4,10 @@ manifest stays valid while checks are added)."""
 import json
 
 claimed = {
+ "C20": dict(level="exploration", engine="I",
+   text="bounded-exhaustive enumeration of message shapes (every list of <=3/4 attribute kinds x 7 integrity/fingerprint endings, plus 16-fold repetitions); every hot-path operation is measured with testing.AllocsPerRun in a dedicated GOMAXPROCS(1), GC-off process under two warm-up regimes; a non-zero reading must repeat 5 times before it counts",
+   note="measurement oracle tied to go1.23.5's escape analysis; one known finding (MessageIntegrity.Check needs 20 bytes of spare capacity) in KNOWN_FINDINGS.txt",
+   technique="bounded exhaustive enumeration of message shapes with a measurement oracle", ref="DESIGN.md section 2 C20"),
  "C10": dict(level="model_checking", engine="H+S",
    text="stateless model checking of the real Client on the rewritten library: every event history up to depth 4/5 (each event run to quiescence, all free thread choices, two epilogues) and 10 concurrent scenarios explored over every interleaving within preemption bound 2/3 plus environment deviations (pool object choice, map order); exactly-once, argument class, Start-error-implies-no-handler, Do-returns-after-handler and deadlock freedom are evaluated on every execution",
    note="tickerCollector, real sockets and real time are replaced by injected doubles; responses obey causality; mutex release is not a scheduling point; races inside one step are invisible to the cooperative scheduler (see the -race pass); bounds: history depth, preemption bound, 2 environment deviations; 3 transaction ids",
